@@ -67,6 +67,10 @@ def _menu(sp, k, tag):
         d = build("fig55", [0.5, 0.75]).description(sp, prefix=tag + "r", nsym=0)
         d["final_states"] = []
         return d, "bad"
+    if k in (9, 10, 11):   # malformed transition of a probabilistic state (caught only inside solve(), i.e. inside run_games' try)
+        d = build("fig55", [0.5, 0.75]).description(sp, prefix=tag + "r", nsym=0)
+        d["transition_list"][3] = {9: [(0.5, 6, 0), (0.5, 7)], 10: [("0.5", 6), (0.5, 7)], 11: [(0.5,), (0.5, 7)]}[k]
+        return d, "bad"
     if k in (7, 8):  # same size, finals and successor sequence, different grouping
         return build("regroup", ["x" if k == 7 else "z"]).description(sp, prefix=tag + "r", nsym=0), "ok"
     d = build("p2choice", [[0, 1, 2], P1]).description(sp, prefix=tag + "r", nsym=0)
@@ -92,7 +96,7 @@ def _batch_jobs(tier, seed):
         jobs.append(dict(picks=list(t), _cost=4))
     jobs.append(dict(picks=[0], _cost=1))
     jobs.append(dict(picks=[4], _cost=1))
-    for extra in ([6], [6, 0], [0, 6, 1], [7, 8], [8, 7], [7, 3, 8]):
+    for extra in ([6], [6, 0], [0, 6, 1], [7, 8], [8, 7], [7, 3, 8], [9], [0, 9, 1], [10, 0], [1, 11]):
         jobs.append(dict(picks=extra, _cost=2))
     return jobs
 
@@ -115,7 +119,7 @@ def _alone(sp, desc, prune):
 @harness("batch.run_games", props=["C12", "C09"], jobs=_batch_jobs,
          covers=["fail_first", "fail_middle", "fail_last", "all_ok", "nosol", "malformed"],
          stubs=["logging (tad) -> sweep counter", "time.time native (total_time not compared)"],
-         bounds="dictionaries of 1-3 games drawn from a menu of 6 (three solvable templates with symbolic rewards, a no-solution "
+         bounds="dictionaries of 1-3 games drawn from a menu of 12 (three solvable templates with symbolic rewards, a no-solution "
                 "game, two malformed games with a symbolic bad value) in every order (quick: all pairs with a failing game, 15 triples)",
          desc="real run_games: one pruned and one unpruned entry per game, in run order, whose strategies, rewards, probabilities, "
               "diagnostics and counts equal those of the game solved alone; a failing pruned solve yields the error message, its "
@@ -185,11 +189,13 @@ def batch_run(sp, picks):
                     sp.prove(sp.eq(a, b), "%s %s: %s differ from solving alone" % (n, mode, key))
         # caller's dictionaries
         d2 = {k: v for k, v in d.items() if k != "prune_states"}
-        same = all(len(d2[k]) == len(snap[n][k]) for k in snap[n]) and d2["players"] == snap[n]["players"] and \
-            d2["final_states"] == snap[n]["final_states"] and \
-            all(a is b or (not is_sym(a) and not is_sym(b) and a == b) for a, b in zip(d2["rewards"], snap[n]["rewards"])) and \
-            all(len(a) == len(b) and all(x[1] is y[1] or (not is_sym(x[1]) and x[1] == y[1]) for x, y in zip(a, b))
-                for a, b in zip(d2["transition_list"], snap[n]["transition_list"]))
+        def same_item(x, y):
+            if is_sym(x) or is_sym(y):
+                return x is y
+            if isinstance(x, (list, tuple)) and isinstance(y, (list, tuple)):
+                return type(x) is type(y) and len(x) == len(y) and all(same_item(a, b) for a, b in zip(x, y))
+            return type(x) is type(y) and x == y
+        same = all(k in d2 and same_item(d2[k], snap[n][k]) for k in snap[n])
         sp.prove(same and set(d2) == set(snap[n]), "run_games changed the caller's description of %s" % n)
 
 
